@@ -28,7 +28,7 @@ import math
 from typing import Any, Optional
 
 from harness import translate_fitness
-from harness.common import MachineryError, Run, driver_ask, lean_check, use_repo
+from harness.common import LEAN, VERIF, MachineryError, Run, _Lock, _run, driver_ask, lean_check, use_repo
 
 PID = "C03"
 ONE = ["1", "1"]
@@ -349,12 +349,20 @@ class Case:
             _CUR[0] = [real_outcome(s) for s in specs]
             gen = ev.evaluate_individual(tree)
             yielded = []
+            err = None
+            res = None
             with contextlib.redirect_stderr(sink):
                 try:
                     while True:
                         yielded.append(next(gen))
                 except StopIteration as stop:
                     res = stop.value
+                except Exception as e:  # noqa  evaluate_individual itself raised
+                    err = type(e).__name__
+            if err is not None:
+                out.append({"emitted": len(yielded) > 0, "fitness": ["0", "1"], "n_yielded": len(yielded),
+                            "same_tree": all(y is tree for y in yielded), "error": err})
+                continue
             fit = res[0]
             if isinstance(fit, int):
                 fit = float(fit)
@@ -392,7 +400,7 @@ def hr_case(rng, h: int, r: int, interleave: bool) -> Case:
     n = h + r
     sat = sat_specs(rng, n, plain=rng.random() < 0.5)
     trees = [("sat", sat), ("sat", sat)]
-    if n > 0:
+    if n > 0 and (n <= 128 or n % 3 == 0):
         part = list(sat)
         for _ in range(rng.choice([1, 1, 2, 3])):
             part[rng.randrange(n)] = gen_unsat(rng)
@@ -406,9 +414,10 @@ def compare_case(run: Run, case: Case, real: list[dict], model: dict, corr_failu
     h, r = case.kinds.count("h"), case.kinds.count("r")
     for i, ((lbl, specs), re_, mo) in enumerate(zip(case.trees, real, steps)):
         run.count(f"{tag}:trees")
-        if (re_["emitted"], ratio_of_json(re_["fitness"])) != (mo["emitted"], ratio_of_json(mo["fitness"])):
+        if re_.get("error") or \
+                (re_["emitted"], ratio_of_json(re_["fitness"])) != (mo["emitted"], ratio_of_json(mo["fitness"])):
             corr_failures.append({"kind": "evaluator", "case": case.to_json(), "step": i,
-                                  "impl": {"emitted": re_["emitted"], "fitness": re_["fitness"]},
+                                  "impl": {"emitted": re_["emitted"], "fitness": re_["fitness"], "error": re_.get("error")},
                                   "model": {"emitted": mo["emitted"], "fitness": mo["fitness"]}})
         if re_["n_yielded"] > 1 or not re_["same_tree"]:
             run.report("C03/yield-shape", f"evaluate_individual yielded {re_['n_yielded']} objects / not the evaluated tree",
@@ -423,9 +432,10 @@ def compare_case(run: Run, case: Case, real: list[dict], model: dict, corr_failu
             run.count(f"{tag}:satisfied_first_seen")
             if not re_["emitted"]:
                 n, d = ratio_of_json(re_["fitness"])
-                sig = "C03/rounding" if n != d else "C03/not-emitted"
+                sig = "C03/raises" if re_.get("error") else "C03/rounding" if n < d else "C03/not-emitted"
+                how = f"evaluate_individual raised {re_['error']}" if re_.get("error") else f"fitness {n / d!r} = {n}/{d}"
                 run.report(sig, f"h={h} hard and r={r} repetition-bounds constraints, all satisfied "
-                                f"(declared {''.join(case.kinds)[:40]}): fitness {n / d!r} = {n}/{d}, the tree is NOT "
+                                f"(declared {''.join(case.kinds)[:40]}): {how}, the tree is NOT "
                                 f"yielded by its first evaluate_individual",
                            {"kind": "case", "case": case.to_json(), "h": h, "r": r, "spec": e2e_spec(h, r) if h + r <= 40 else None})
                 run.count(f"{tag}:satisfied_not_emitted")
@@ -454,7 +464,7 @@ def run_cases(run: Run, cases: list[Case], corr_failures: list, tag: str) -> Non
 # ------------------------------------------------------------------------------------------------
 
 WHERE_FORMS = ['where int(<n>) + {i} == {j}', 'where str(<n>) == "1"', 'where len(str(<n>)) + {i} == {j}',
-               'where int(<n>) == 1 and len(str(<start>)) > {i}']
+               'where int(<n>) == 1 and len(str(<start>)) + {i} > {i}']
 
 
 def e2e_spec(h: int, r: int) -> str:
@@ -471,11 +481,20 @@ def e2e_word(h: int, r: int) -> str:
 
 
 def all_success(ev, tree) -> Optional[bool]:
-    """the real constraint objects' own verdicts (`.success`), independent of the float arithmetic"""
-    try:
-        return all(c.fitness(tree).success for c in ev._hard_constraints + ev._repetition_bounds_constraints)
-    except Exception:  # noqa  (e.g. deepcopy of a non-trivial suggestion on a constraint-cache hit)
-        return None
+    """the real constraint objects' own verdicts (`.success`), independent of the float arithmetic.
+    Each constraint is asked with an empty memo table (a cache hit would `copy` the cached fitness, and
+    deep-copying a non-trivial repair suggestion fails)."""
+    ok = True
+    for c in ev._hard_constraints + ev._repetition_bounds_constraints:
+        saved = c.cache
+        c.cache = {}
+        try:
+            ok = bool(c.fitness(tree).success) and ok
+        except Exception:  # noqa
+            return None
+        finally:
+            c.cache = saved
+    return ok
 
 
 def e2e_one(run: Run, h: int, r: int, seed: int, do_fuzz: bool) -> list[str]:
@@ -512,17 +531,27 @@ def e2e_one(run: Run, h: int, r: int, seed: int, do_fuzz: bool) -> list[str]:
                     yield x
             except StopIteration as stop:
                 res = stop.value
+            except Exception as e:  # noqa  evaluate_individual itself raised
+                if first:
+                    records.append((individual, yielded, f"raised {type(e).__name__}", all_success(ev, individual)))
+                raise
             if first:
                 records.append((individual, yielded, res[0], all_success(ev, individual)))
             return res
 
         ev.evaluate_individual = wrapped
-        if do_fuzz:
-            list(itertools.islice(fan.generate_solutions(max_generations=3), 3))     # ALWAYS bounded
+        try:
+            if do_fuzz:
+                list(itertools.islice(fan.generate_solutions(max_generations=3), 3))     # ALWAYS bounded
+        except Exception:  # noqa  recorded by `wrapped` when it came from evaluate_individual
+            run.count("e2e:fuzz_raised")
         for t in trees:
             fan.grammar.populate_sources(t)
-            for _ in wrapped(t):
-                pass
+            try:
+                for _ in wrapped(t):
+                    pass
+            except Exception:  # noqa
+                run.count("e2e:evaluate_raised")
     n_sat = 0
     for tree, yielded, fit, ok in records:
         run.count("e2e:trees_evaluated")
@@ -532,7 +561,7 @@ def e2e_one(run: Run, h: int, r: int, seed: int, do_fuzz: bool) -> list[str]:
             n_sat += 1
             run.count("e2e:satisfied_trees")
             if yielded != 1:
-                bad.append(f"spec(h={h}, r={r}): tree {str(tree)!r} satisfies all {h}+{r} constraints (every constraint "
+                bad.append(("C03/raises: " if isinstance(fit, str) else "C03/rounding: " if fit < 1.0 else "C03/not-emitted: ") + f"spec(h={h}, r={r}): tree {str(tree)!r} satisfies all {h}+{r} constraints (every constraint "
                            f"object reports success) but was not yielded at its first evaluation; fitness {fit!r}")
     if n_sat == 0:
         # the parsed known solution is either in the records or was evaluated during the fuzz run
@@ -557,7 +586,8 @@ def replay(path: str) -> int:
             first = lbl not in seen
             seen.add(lbl)
             n, d = ratio_of_json(re_["fitness"])
-            print(f"tree {lbl!r}: fitness {n}/{d} = {n / d!r} emitted={re_['emitted']}")
+            print(f"tree {lbl!r}: fitness {n}/{d} = {n / d!r} emitted={re_['emitted']}"
+                  + (f" RAISED {re_['error']}" if re_.get("error") else ""))
             if all(is_sat(s) for s in specs):
                 if first and not re_["emitted"]:
                     bad.append(f"all {len(specs)} constraints satisfied, first evaluation, not yielded (fitness {n / d!r})")
@@ -627,6 +657,13 @@ def main(tier: str) -> int:
     run.coverage["generated_formula"] = gen["formula"]
     run.coverage["acceptance_test"] = gen["emit"]
     model_usable = not gen["refusals"] and lean.ok
+    if not gen["refusals"] and not lean.ok:
+        # the theorems broke but the generated definitions may still compile: rebuild the driver alone so
+        # that the correspondence still runs against the *current* formula (never against a stale binary)
+        with _Lock():
+            rc, _log = _run(["lake", "build", "drv_fit"], LEAN, 900)
+        model_usable = rc == 0
+        run.count("driver_rebuilt_after_broken_obligations" if rc == 0 else "driver_does_not_build")
     if not model_usable:
         # the driver links against Generated/Fitness.lean; without it only the real code can be examined
         run.count("model_unavailable")
@@ -647,8 +684,11 @@ def main(tier: str) -> int:
         pairs += [(0, 2 ** 14), (2 ** 14, 0), (1, 2 ** 15 - 1), (12345, 54321)]
     cases = [hr_case(rng, h, r, interleave=(i % 3 != 0)) for i, (h, r) in enumerate(pairs)]
     # corpus: the pairs the pre-fix arithmetic lost, in plain form
-    corpus = [Case(["h"] * h + ["r"] * r, [("sat", [("cf", 1, 1)] * (h + r))] * 2) for h, r in
-              ((1, 5), (0, 49), (5, 1), (2, 7), (3, 11), (1, 2), (0, 0), (1, 0), (0, 1))]
+    corpus_pairs = [(1, 5), (0, 49), (5, 1), (2, 7), (3, 11), (1, 2), (0, 0), (1, 0), (0, 1)]
+    cfile = VERIF / "corpus" / "C03" / "hr_pairs.json"
+    if cfile.exists():
+        corpus_pairs += [tuple(p) for p in json.loads(cfile.read_text())["pairs"] if tuple(p) not in corpus_pairs]
+    corpus = [Case(["h"] * h + ["r"] * r, [("sat", [("cf", 1, 1)] * (h + r))] * 2) for h, r in corpus_pairs]
     if model_usable:
         run_cases(run, corpus, corr_failures, "corpus")
         run_cases(run, cases, corr_failures, "hr")
@@ -660,7 +700,7 @@ def main(tier: str) -> int:
             fake = {"steps": [{"emitted": x["emitted"], "fitness": x["fitness"]} for x in real]}
             run.case(["hr-impl-only", "".join(c.kinds)], len(c.kinds) >= 2)
             compare_case(run, c, real, fake, [], "hr-impl-only")
-    run.coverage["hr_range"] = f"all (h, r) in [0,{hi}]^2" + ("" if quick else " + 2500 sampled pairs in [0,1024]^2 + 4 large")
+    run.coverage["hr_range"] = f"all (h, r) in [0,{hi}]^2 (partially satisfied tree: all with h + r <= 128, every third beyond)" + ("" if quick else " + 2500 sampled pairs in [0,1024]^2 + 4 large")
 
     # ---- 3b. end-to-end specs
     e2e_pairs = [(1, 5), (0, 3), (3, 0), (2, 7)] if quick else \
@@ -668,7 +708,7 @@ def main(tier: str) -> int:
     for i, (h, r) in enumerate(e2e_pairs):
         run.case(["e2e", h, r], True)
         for msg in e2e_one(run, h, r, run.seed * 1000 + i, True):
-            run.report("C03/rounding", msg, {"kind": "e2e", "h": h, "r": r, "fuzz_seed": run.seed * 1000 + i,
+            run.report(msg.split(":")[0], msg.split(": ", 1)[1], {"kind": "e2e", "h": h, "r": r, "fuzz_seed": run.seed * 1000 + i,
                                              "spec": e2e_spec(h, r)})
     if run.counters.get("e2e:satisfied_trees", 0) < len(e2e_pairs):
         raise MachineryError("end-to-end: fewer satisfied trees were observed than specs were run (vacuous)")
